@@ -239,6 +239,16 @@ class Effects:
                     if p in self.ret[tgt]:
                         out |= self.roots(a, f, amap, depth + 1)
                 return out or {FRESH}
+            if not isinstance(tgt, (Func, Cls)) and e.args and (
+                    (isinstance(fn, ast.Name) and fn.id in f.params)
+                    or (isinstance(fn, ast.Attribute) and isinstance(fn.value, ast.Name) and f.params and fn.value.id == f.params[0] and f.cls is not None
+                        and self.model.method(f.cls, fn.attr) is None)):
+                # a callable supplied by the user (a parameter, or stored on the object): nothing is known about it -- its result may be
+                # (a view of) any of its arguments
+                out = {FRESH}
+                for a in e.args:
+                    out |= self.roots(a, f, amap, depth + 1)
+                return out
             if isinstance(fn, ast.Attribute) and not isinstance(tgt, (Func, Cls)):
                 # unknown method on an object: results of accessor-like calls may alias the receiver
                 cands = self._by_method.get(fn.attr, [])
